@@ -57,6 +57,33 @@ def view_params(v):
     return name, base, group
 
 
+def decorate_lines(rng, src):
+    """Multi-byte characters on the *same line* as an item, before it (block comment) or inside it (a string element):
+    listing locations are character columns, so every later column on that line shifts if bytes were counted."""
+    head, sep, body = src.partition("\n\n")
+    if not sep:
+        return src
+    out, depth = [], 0
+    for line in body.split("\n"):
+        t = line.strip()
+        if t.startswith("#bankdef") or t.startswith("#ruledef") or t.startswith("#subruledef"):
+            depth = 1
+        elif depth and t == "}":
+            depth = 0
+            out.append(line)
+            continue
+        if depth or not t or t.startswith(";"):
+            out.append(line)
+            continue
+        r = rng.random()
+        if r < 0.2:
+            line = rng.choice([";* \u00fc *; ", ";* \u4e2d\u6587 \U0001f600 *; ", ";*\u00e9*;"]) + line
+        elif r < 0.3 and t.startswith("#d8 "):
+            line = line.replace("#d8 ", '#d8 "\u00e9"[7:0], ', 1)
+        out.append(line)
+    return head + sep + "\n".join(out)
+
+
 def wrap_with_include(rng, src):
     """Moves the program body into an included file (and adds multi-byte characters in comments)."""
     head, sep, body = src.partition("\n\n")
@@ -179,6 +206,8 @@ def shard(ctx):
         if rng.random() < 0.25:
             prog["items"].append(("raw", "title = \"abc\"\n.len = 3\n.inner = 4\n..deep = 5\ndebugflag = false\n.level = 2\n#const(noemit) .quiet = 9\n.after = 7\n.here:\n..under:\n"))
         src = G.render(prog)
+        if rng.random() < 0.4:
+            src = decorate_lines(rng, src)
         if rng.random() < 0.35:
             files, roots = wrap_with_include(rng, src)
         else:
